@@ -56,6 +56,15 @@ def gen_graph(rng, allow_kw=True):
     # half of the graphs are written the usual way: every function is a `def walk` (root: @ovld, variants: @parent.variant),
     # bound to its node name afterwards, so that all functions of the graph share one name in one module
     nodes[0]["same_name"] = rng.random() < 0.5
+    if nodes[0]["same_name"] and all(nd["kind"] in ("root", "variant") for nd in nodes) and rng.random() < 0.7:
+        # ... and used as soon as it is defined, before the next `def walk` takes the name: methods may then refer to the
+        # function by that very name (`walk(a)`), which the rewriter ties to the function it was adapted for
+        nodes[0]["early"] = True
+        for nd in nodes:
+            if nd["kind"] in ("root", "variant"):
+                for m in nd["methods"][:1] if nd["kind"] == "variant" else nd["methods"]:
+                    if m["how"] in ("recurse", "own") and rng.random() < 0.6:
+                        m["how"] = "ownname"
     return nodes
 
 
@@ -64,7 +73,7 @@ def method_src(i, first, m, same_name=False):
     if how == "leaf":
         body = f"return ('leaf', {i}, '{t}', x)"
     else:
-        call = {"recurse": "recurse(a)", "own": f"f{i}(a)", "genexp": "recurse(a)", "kw": "recurse(x=a)", "map": None, "star": "recurse(*[a])"}[how]
+        call = {"recurse": "recurse(a)", "own": f"f{i}(a)", "ownname": "walk(a)", "genexp": "recurse(a)", "kw": "recurse(x=a)", "map": None, "star": "recurse(*[a])"}[how]
         seq = "list(map(recurse, x))" if how == "map" else f"[{call} for a in x]" if how != "genexp" else f"list({call} for a in x)"
         body = f"return ('rec', {i}, '{t}', {seq})"
     name = "walk" if same_name else f"f{i}"
@@ -74,7 +83,10 @@ def method_src(i, first, m, same_name=False):
 def graph_source(nodes):
     out = []
     sn = bool(nodes[0].get("same_name"))
+    early = bool(nodes[0].get("early"))
     for i, nd in enumerate(nodes):
+        if early and i > 0:
+            out.append(f"try:\n    f{i - 1}([1, (2,)])\nexcept Exception:\n    pass\n")
         ms = nd["methods"]
         if nd["kind"] == "root":
             for j, m in enumerate(ms):
@@ -227,7 +239,9 @@ def check_graph(ctx, case, work, stats=None):
     # a late registration on a function already in use (a node nothing derives from, hence not locked): a new
     # non-recursive method for one of the leaf types; recursion from the inherited methods must reach it
     leafs = [i for i in range(len(nodes)) if not any(i in nd["parents"] for nd in nodes)]
-    if leafs and case.get("late") is not None:
+    # (not for graphs whose methods name the function by the shared `def` name: a rebuild re-reads that name, which by then
+    # belongs to the last definition -- plain Python name binding, not the rewriter's doing)
+    if leafs and case.get("late") is not None and not nodes[0].get("early"):
         L = leafs[case["late"] % len(leafs)]
         t = ["int", "str"][case["late"] % 2]
         late_src = f"def _(x: {t}):\n    return ('leaf', {L}, '{t}', x)\n"
